@@ -70,6 +70,7 @@ type layout struct {
 	total    int64
 	seed     uint64
 	escaping bool // some name needs URL escaping
+	huge     bool // pieces of 1 MiB and more
 }
 
 func (l *layout) String() string {
@@ -139,6 +140,7 @@ type layoutOpts struct {
 	noEsc     bool // never draw names that need escaping
 	grow      bool // usually make the torrent at least a few blocks long
 	big       bool // prefer pieces of several blocks
+	huge      bool // now and then pieces of 1-4 MiB (storrent fetches at most 1 MiB, or 5 s worth, at a time)
 }
 
 // genLayout draws a valid geometry: 1–10 files (or single-file), padding
@@ -152,6 +154,11 @@ func genLayout(t *rapid.T, o layoutOpts) *layout {
 	if o.big && l.ps == blk && rapid.IntRange(0, 3).Draw(t, "bigger") != 0 {
 		l.ps = blk * rapid.SampledFrom([]int64{2, 3, 4, 8}).Draw(t, "blocksPerPiece2")
 	}
+	if o.huge && rapid.IntRange(0, 7).Draw(t, "huge") == 0 {
+		l.ps = blk * rapid.SampledFrom([]int64{64, 65, 66, 96, 128, 129, 160, 256, 256, 512}).Draw(t, "blocksPerHugePiece")
+		o.maxPieces = 2
+		l.huge = true
+	}
 	if o.maxPieces == 0 {
 		o.maxPieces = 5
 	}
@@ -160,6 +167,9 @@ func genLayout(t *rapid.T, o layoutOpts) *layout {
 		l.total = genLen(t, "length", l.ps, budget)
 		if o.grow {
 			l.total = max(l.total, rapid.SampledFrom([]int64{0, 2 * blk, 3 * blk, l.ps, l.ps + blk, 2 * l.ps}).Draw(t, "mintotal"))
+		}
+		if l.huge {
+			l.total = max(l.total, rapid.SampledFrom([]int64{l.ps - blk, l.ps, l.ps, l.ps + 1, 2*l.ps - 1, 2 * l.ps}).Draw(t, "hugetotal"))
 		}
 		l.total = fixTail(t, l.total, budget)
 		return l
@@ -206,6 +216,9 @@ func genLayout(t *rapid.T, o layoutOpts) *layout {
 	if o.grow {
 		total0 := total
 		total = max(total, rapid.SampledFrom([]int64{0, 2 * blk, 3 * blk, l.ps, l.ps + blk, 2 * l.ps}).Draw(t, "mintotal"))
+		if l.huge {
+			total = max(total, rapid.SampledFrom([]int64{l.ps - blk, l.ps, l.ps, l.ps + 1, 2*l.ps - 1, 2 * l.ps}).Draw(t, "hugetotal"))
+		}
 		if total != total0 {
 			k := len(l.files) - 1
 			for k > 0 && l.files[k].pad {
